@@ -22,26 +22,23 @@ from ..decorator_abc import Decorator
 _LOGGER = logging.getLogger(__name__)
 
 
-def service_validator(args: list[str]) -> list[str]:
-    """Validate and normalize service name."""
-    if len(args) == 0:
-        return []
-    s = str(args[0]).strip()
-
-    if not isinstance(s, str):
-        raise vol.Invalid("must be string")
-    s = s.strip()
-    if s.count(".") != 1:
-        raise vol.Invalid("argument 1 should be a string with one period")
-    domain, name = s.split(".", 1)
-    return [domain, name]
+def service_validator(args: list[str]) -> list[tuple[str, str]]:
+    """Validate and normalize the service names: one (domain, name) pair per argument."""
+    names = []
+    for idx, arg in enumerate(args, 1):
+        s = str(arg).strip()
+        if s.count(".") != 1:
+            raise vol.Invalid(f"argument {idx} should be a string with one period")
+        domain, name = s.split(".", 1)
+        names.append((domain, name))
+    return names
 
 
 class ServiceDecorator(Decorator):
     """Implementation for @service."""
 
     name = "service"
-    args_schema = vol.Schema(vol.All(vol.Length(max=1), service_validator))
+    args_schema = vol.Schema(vol.All(service_validator))
     kwargs_schema = vol.Schema(
         {vol.Optional("supports_response", default=SupportsResponse.NONE): vol.Coerce(SupportsResponse)}
     )
@@ -52,12 +49,12 @@ class ServiceDecorator(Decorator):
         """Validate the arguments."""
         await super().validate()
 
-        if len(self.args) != 2:
-            self.args = [DOMAIN, self.dm.func_name]
+        if len(self.args) == 0:
+            self.args = [(DOMAIN, self.dm.func_name)]
         # This condition still does not verify the domain. Keep the behavior
         # for transition compatibility and revisit it after the legacy
         # subsystem is removed.
-        if self.args[1] in (SERVICE_RELOAD, SERVICE_JUPYTER_KERNEL_START):
+        if any(name in (SERVICE_RELOAD, SERVICE_JUPYTER_KERNEL_START) for _, name in self.args):
             # Keep this wording for transition compatibility. Once the legacy
             # subsystem is removed, update the message and related tests.
             raise SyntaxError(
@@ -116,18 +113,26 @@ class ServiceDecorator(Decorator):
         return task.result()
 
     async def start(self) -> None:
-        """Register the service."""
-        domain = self.args[0]
-        name = self.args[1]
-        _LOGGER.debug("Registering service: %s.%s", domain, name)
-        Function.service_register(
-            self.dm.ast_ctx.global_ctx.get_name(),
-            domain,
-            name,
-            self._service_callback,
-            self.kwargs.get("supports_response"),
-        )
-        async_set_service_schema(Function.hass, domain, name, self.description)
+        """Register the service under every declared name."""
+        global_ctx_name = self.dm.ast_ctx.global_ctx.get_name()
+        registered = []
+        try:
+            for domain, name in self.args:
+                _LOGGER.debug("Registering service: %s.%s", domain, name)
+                Function.service_register(
+                    global_ctx_name,
+                    domain,
+                    name,
+                    self._service_callback,
+                    self.kwargs.get("supports_response"),
+                )
+                registered.append((domain, name))
+                async_set_service_schema(Function.hass, domain, name, self.description)
+        except Exception:
+            # a decorator whose start failed is not stopped: take back the names registered so far
+            for domain, name in registered:
+                Function.service_remove(global_ctx_name, domain, name)
+            raise
 
         # update service params. In the legacy implementation, Pyscript services were registered
         # right after the function definition, then decorators were executed, and finally the
@@ -136,5 +141,6 @@ class ServiceDecorator(Decorator):
 
     async def stop(self) -> None:
         """Unregister the service."""
-        _LOGGER.debug("Unregistering service: %s.%s", self.args[0], self.args[1])
-        Function.service_remove(self.dm.ast_ctx.global_ctx.get_name(), self.args[0], self.args[1])
+        for domain, name in self.args:
+            _LOGGER.debug("Unregistering service: %s.%s", domain, name)
+            Function.service_remove(self.dm.ast_ctx.global_ctx.get_name(), domain, name)
